@@ -20,7 +20,7 @@ func init() {
 		Rule: "full rate-limited flows client -> attester.VerifyRequest -> issuer.Evaluate -> attester.FinalizeIndex for 4 clients x 4 origins (two origins deliberately share one index key) x R requests each with fresh blind, each flow run against a fresh attester and against one long-lived attester per worker on which the client reuses one anonymous origin ID for all origins (incl. 1, N-1, leading-zero and > N encodings), nonce and challenge. " +
 			"Oracle: every returned index equals HKDF-SHA-384(salt = compress(client key), ikm = compress(k_o * client key), info = \"IssuerOriginAlias\", 48) with k_o = hash_to_field(bytes(index key D)||0x00||0x0003||\"IssuerBlind\"), all computed by the reference (own XMD, own HKDF, std curve); Evaluate's second value equals compress(k_o * request key); indices of distinct clients or distinct index keys differ; origins sharing an index key give equal indices. " +
 			"distinct_nontrivial = distinct (client, origin, blind class) triples",
-		Floors:      []string{"index_matches_reference", "blinded_request_key_matches_reference", "repeat_same_index", "distinct_pairs_differ", "shared_index_key_equal", "edge_blinds", "index_matches_reference_on_used_attester", "retained_ids_rechecked", "negated_key_request_refused"},
+		Floors:      []string{"index_matches_reference", "blinded_request_key_matches_reference", "repeat_same_index", "distinct_pairs_differ", "shared_index_key_equal", "edge_blinds", "index_matches_reference_on_used_attester", "retained_ids_rechecked", "negated_key_request_refused", "index_key_replaced_flows_match_reference"},
 		Assumptions: []string{"crypto/elliptic, crypto/hmac and the SHA-2 family of the standard library are the trusted base of the reference"},
 		Run:         runC08,
 	})
@@ -254,6 +254,74 @@ func runC08(c *core.Ctx) {
 					bad("panic:"+where, "panic: "+pv)
 				}
 			}
+		}
+	}
+	// index keys REPLACED on a long-lived issuer: the ID and Evaluate's second value depend on the index key the origin has
+	// NOW (AddOriginWithIndexKey for a known origin replaces its key), not on anything derived from an earlier one
+	{
+		rot := mkIssuer()
+		alt := [][]byte{ScalarBytes(setup, N, 48), ScalarBytes(setup, N, 48)}
+		for rs := 0; rs < c.Pick(12, 300); rs++ {
+			if !c.Next() {
+				continue
+			}
+			r := c.CaseRng()
+			ci, o := r.IntN(nClients), r.IntN(2)
+			keysInOrder := [][]byte{dOf(o), alt[0], dOf(o), alt[1], alt[0]}
+			var trace []string
+			for step, dk := range keysInOrder {
+				c.Eval(1)
+				trace = append(trace, core.Hex(dk[:4]))
+				d := map[string]any{"client": ci, "origin": origins[o], "index_keys_in_order_(first_bytes)": clone2(trace), "current_index_key": core.Hex(dk)}
+				bad := func(cls, what string) {
+					c.Violation("rotation:"+cls, "anonymous issuer origin ID after the origin's index key was replaced: "+what, d)
+				}
+				stop := false
+				pan, pv, where := core.Guard(func() {
+					k, err := ecdsa.CreateKey(curve, dk)
+					must(err)
+					if step > 0 || rs%2 == 0 {
+						rot.AddOriginWithIndexKey(origins[o], k)
+					} else if !bytes.Equal(dk, dOf(o)) {
+						return
+					}
+					blind := ScalarBytes(r, N, 48)
+					st, err := type3.NewRateLimitedClientFromSecret(secrets[ci]).CreateTokenRequest(r.Bytes(9), r.Bytes(32), blind, rot.TokenKeyID(), rot.TokenKey(), origins[o], rot.NameKey())
+					must(err)
+					_, brk, err := rot.Evaluate(st.Request().Marshal())
+					if err != nil {
+						bad("evaluate-error", err.Error())
+						stop = true
+						return
+					}
+					qx, qy, _ := ref.ECDecompress(curve, st.Request().RequestKey)
+					ko := ref.ECDSABlindScalar(curve, new(big.Int).SetBytes(dk), ctxIssuer)
+					bx, by := ref.ECMul(curve, qx, qy, ko)
+					if !bytes.Equal(brk, ref.ECCompress(curve, bx, by)) {
+						bad("blinded-request-key", "Evaluate's second return value is not the request key blinded by the origin's CURRENT index key")
+						stop = true
+						return
+					}
+					att := type3.NewRateLimitedAttester(newMemCache())
+					must(att.VerifyRequest(*st.Request(), blind, st.ClientKey(), []byte("anon")))
+					idx, err := att.FinalizeIndex(st.ClientKey(), blind, brk, []byte("anon"))
+					ix, iy := ref.ECMul(curve, cpx[ci], cpy[ci], ko)
+					if err != nil || !bytes.Equal(idx, ref.IssuerOriginAlias(clientKeys[ci], ref.ECCompress(curve, ix, iy))) {
+						bad("index-differs", "the ID is not the reference ID for the origin's current index key")
+						stop = true
+						return
+					}
+					c.Class("index_key_replaced_flows_match_reference")
+				})
+				if pan {
+					bad("panic:"+where, pv)
+					break
+				}
+				if stop {
+					break
+				}
+			}
+			c.Distinctf("rotation:%d:%d:%d", ci, o, rs)
 		}
 	}
 	// the shipped (Go-generated) vector as one more input: reference vs code is judged, vector agreement is informational
